@@ -56,14 +56,11 @@ func descObs(o agentmodel.Obs) string {
 var concModes = []string{"direct", "conn-per-client", "shared-pipelined-client", "mixed"}
 
 func runConcurrent(m *mon.M, pool []*testKey) {
-	total := m.N(96, 3000)
+	total := m.N(96, 1000)
 	k2 := []*testKey{keyByNm["ed25519"], keyByNm["ed25519b"], keyByNm["ecdsa256"], keyByNm["ed25519-cert"]}
 	m.Cases("conc", total, func(i int64, r *mrand.Rand) {
 		mode := int(i % 4)
-		rounds := i%2 == 0 || mode != int(i/4)%4 // most histories are round-synchronised (overlap forced); the rest run freely
-		if (i/8)%3 == 2 {
-			rounds = false
-		}
+		rounds := (i/4)%3 != 2 // two thirds of the histories are round-synchronised (overlap forced); the rest run freely
 		nClients := 3 + r.IntN(2)
 		perClient := 6 + r.IntN(5) // <= 10 each, <= 40 in total
 		keys := []*testKey{k2[r.IntN(len(k2))]}
